@@ -225,6 +225,49 @@ func runC17(c *Ctx) error {
 			check(bad, fmt.Sprintf("inject:%s@%d", p, lvl))
 		}
 	}
+	// the same key paths whatever the file is called: a document in JSON syntax (which is YAML) read from a file named
+	// *.json, *.yaml or *.yml is accepted exactly when the reader route accepts that text – keys spelled in another case
+	// included (the schema is case-sensitive)
+	for di, text := range []string{
+		`{"name": "p", "arch": "amd64", "version": "1.0.0", "deb": {"compression": "xz"}}`,
+		`{"Name": "p", "arch": "amd64", "version": "1.0.0"}`,
+		`{"name": "p", "ARCH": "amd64", "version": "1.0.0"}`,
+		`{"name": "p", "arch": "amd64", "version": "1.0.0", "Deb": {"compression": "xz"}}`,
+		`{"name": "p", "arch": "amd64", "version": "1.0.0", "deb": {"Compression": "xz"}}`,
+		`{"name": "p", "arch": "amd64", "version": "1.0.0", "contents": [{"Src": "a", "dst": "/b"}]}`,
+	} {
+		_, rerr := nfpm.ParseWithEnvMapping(strings.NewReader(text), func(string) string { return "" })
+		var jd any
+		_ = json.Unmarshal([]byte(text), &jd)
+		verrs := validateSchema(root, root, jd, "$")
+		for _, ext := range []string{".json", ".yaml", ".yml", ".JSON", ""} {
+			fp := filepath.Join(c.Tmp, fmt.Sprintf("c17-named-%d%s", di, ext))
+			if os.WriteFile(fp, []byte(text), 0o644) != nil {
+				continue
+			}
+			_, ferr := nfpm.ParseFileWithEnvMapping(fp, func(string) string { return "" })
+			fam2.Eval(fmt.Sprintf("file-name:%d%s", di, ext), true)
+			if (ferr == nil) != (rerr == nil) {
+				c.Rep.Find(report.Finding{Property: "C17", Family: "accepts-implies-validates", Shape: "file-route-differs-from-reader-route:by-file-name",
+					What: fmt.Sprintf("the document read from a file named *%s: %v; the same text from a reader: %v (the schema: %d complaint(s)) – the key paths the parser accepts depend on the name of the file", ext, ferr, rerr, len(verrs)), Input: map[string]any{"document": text, "file_extension": ext}})
+			}
+		}
+	}
+	// the overrides section under every packager's name: the schema allows each of them, so must the parser (and vice
+	// versa); an unregistered name is allowed by neither
+	for _, f := range append(append([]string{}, Formats...), "debb", "DEB", "zst") {
+		for _, body := range []any{map[string]any{"depends": []any{"x"}}, map[string]any{"contents": []any{map[string]any{"src": "a", "dst": "/b"}}}, map[string]any{"umask": 18}} {
+			doc := map[string]any{"name": "p", "arch": "amd64", "version": "1.0.0", "overrides": map[string]any{f: body}}
+			check(doc, "overrides-key:"+f)
+			if _, isFormat := c07Ext[f]; isFormat {
+				yb, _ := yaml.Marshal(doc)
+				if _, perr := nfpm.ParseWithEnvMapping(bytes.NewReader(yb), func(string) string { return "" }); perr != nil {
+					c.Rep.Find(report.Finding{Property: "C17", Family: "accepts-implies-validates", Shape: "parser-rejects-key-path-the-schema-allows:overrides." + f,
+						What: "the schema allows the overrides section of the registered packager " + f + ", the parser rejects the document: " + perr.Error(), Input: map[string]any{"document": string(yb)}})
+				}
+			}
+		}
+	}
 	// integer settings: the parser accepts any number that fits the field (modes with set-user-ID, set-group-ID and sticky
 	// bits, a umask, large sizes, priorities); the schema must not be narrower than that
 	for _, p := range order {
